@@ -255,6 +255,11 @@ func (batch *Batch) readMessage(
 	case err == nil:
 		batch.offset = offset + 1
 		batch.lastOffset = lastOffset
+		if lastOffset >= batch.offset && batch.msgs.batchDone() {
+			// That was the last record of a record batch whose tail was
+			// removed by log compaction: the next record is in the next batch.
+			batch.offset = lastOffset + 1
+		}
 	case errors.Is(err, errShortRead):
 		// As an "optimization" kafka truncates the returned response after
 		// producing MaxBytes, which could then cause the code to return
@@ -294,6 +299,11 @@ func (batch *Batch) readMessage(
 				// In order to reliably reach the next non-compacted offset we
 				// jump past the saved lastOffset.
 				batch.offset = batch.lastOffset + 1
+			}
+			if batch.msgs.emptyNext > batch.offset {
+				// The response ended with record batches that log compaction
+				// left without any record: continue after them.
+				batch.offset = batch.msgs.emptyNext
 			}
 		}
 	default:
